@@ -21,9 +21,9 @@ ID = "C10"
 
 META = {
     "rule": "states = canonical interpreter states (content of every qlasskit.* module namespace incl. function code hashes and default "
-            "arguments + fingerprints of all live objects) reached by sequences of public API operations from a menu (compile of 13 sources incl. two "
+            "arguments + fingerprints of all live objects) reached by sequences of public API operations from a menu (compile of 15 sources incl. two "
             "bodies under one name, names that are globals of the library, a function called oracle, one called swap, bodies with if-statements "
-            "that make the front end generate names; bind; defs= composition; oraclize; Grover "
+            "that make the front end generate names, a parameterised caller with defs= bound repeatedly; bind; defs= composition; oraclize; Grover "
             "with and without element; DeutschJozsa; BernsteinVazirani; Simon; export qasm/qiskit/cirq/sympy; decompile; circuit optimizer; "
             "truth_table; compile of a callable). os.fork() snapshots the interpreter so that sibling operations start from exactly the same state; "
             "states are deduplicated by hash. On EVERY transition: (no damage) the fingerprint of every live object is unchanged; (no dependence) "
@@ -59,8 +59,12 @@ SRC = {
     "I2": "def fj(x: Qint[2], b: bool) -> Qint[2]:\n    c = x\n    if b:\n        c = x + 1\n    else:\n        c = x ^ 1\n    return c\n",
     "S": "def swap(a: bool, b: bool) -> bool:\n    return a ^ b\n",           # the name of a QuantumCircuit attribute
     "T": "def ft(x: Tuple[bool, bool]) -> bool:\n    return x[0] and x[1]\n",
+    # a sub-expression shared by two results: the optimizer invents a name for it
+    "C": "def fc(a: bool, b: bool, c: bool, d: bool) -> Tuple[bool, bool]:\n    return ((a ^ b) and c, (a ^ b) and d)\n",
 }
 CALLER = "def caller(a: Qint[2]) -> Qint[2]:\n    return fv(a) ^ 1\n"
+# a parameterised caller of a compiled function (its own private copy of fv): every bind re-translates with the same definitions
+PCALLER = "def pcaller(a: Qint[2], p: Parameter[Qint[2]]) -> Qint[2]:\n    return fv(a) + p\n"
 
 
 def py_callable():
@@ -83,6 +87,9 @@ def _menu():
     ops = []
     for p in SRC:
         ops.append(("compile:" + p, [], "create"))
+    ops.append(("compile:PD", [], "create"))
+    ops.append(("bindd:1", ["PD"], "create"))
+    ops.append(("bindd:3", ["PD"], "create"))
     ops.append(("bind:P:1", ["P"], "create"))
     ops.append(("bind:P:2", ["P"], "create"))
     ops.append(("compose:V", ["V"], "create"))
@@ -226,12 +233,16 @@ def perform(op, slots):
     k = parts[0]
     if k == "compile":
         p = parts[1]
+        if p == "PD":
+            return p, qlassf(PCALLER, defs=[qlassf(SRC["V"])])
         if p in ("I", "I2"):
             from qlasskit.boolopt import fastOptimizer
             o = qlassf(SRC[p], bool_optimizer=fastOptimizer)
         else:
             o = qlassf(SRC[p])
         return p, o
+    if k == "bindd":
+        return "PD(%s)" % parts[1], slots["PD"].bind(p=int(parts[1]))
     if k == "bind":
         return "P(%s)" % parts[2], slots["P"].bind(p=int(parts[2]))
     if k == "compose":
@@ -378,9 +389,9 @@ def shards(tier):
         # quick: every history of length <= 2, and length 3 below the operations that touch names, oracles and callees;
         # thorough: one level deeper (a full depth-4 search is ~1M forked transitions at 80 ms each)
         if tier == "quick":
-            depth = 3 if op1 in ("compile:K2", "compile:O", "compile:V", "compile:I") else 2
+            depth = 3 if op1 in ("compile:K2", "compile:O", "compile:V", "compile:I", "compile:PD") else 2
         else:
-            depth = 4 if op1 in ("compile:K2", "compile:O", "compile:V", "compile:I") else 3
+            depth = 4 if op1 in ("compile:K2", "compile:O", "compile:V", "compile:I", "compile:PD") else 3
         for i, op2 in enumerate(seconds):
             out.append({"first": op1, "second": op2, "count_first": i == 0, "depth": depth, "heavy": False})
     return out
